@@ -42,7 +42,7 @@ var wrapFunc = function.New(&function.Spec{
 	Impl:   func(args []cty.Value, retType cty.Type) (cty.Value, error) { return cty.TupleVal([]cty.Value{args[0]}), nil },
 })
 
-func labelNames(n int) []string { return []string{"k1", "k2", "k3"}[:n] }
+func labelNames(n int) []string { return []string{"k1", "k2", "k3", "k4"}[:n] }
 
 // Build constructs the real hcldec.Spec.
 func (s *SpecNode) Build() hcldec.Spec {
@@ -286,27 +286,72 @@ func jsonBody(items []Item, variant int, top bool) string {
 					same = append(same, other)
 				}
 			}
-			mergeable := true
-			seen := map[string]bool{}
+			// nested label objects: blocks sharing a label prefix share the nested object.
+			// Only possible when all blocks of the type have the same label count and no two are identical.
+			mergeable := len(same) > 0
+			seenL := map[string]bool{}
 			for _, b := range same {
-				if len(b.Labels) == 0 || seen[b.Labels[0]] {
+				if len(b.Labels) == 0 || len(b.Labels) != len(same[0].Labels) || seenL[strings.Join(b.Labels, "\x00")] {
 					mergeable = false
 				}
-				if len(b.Labels) > 0 {
-					seen[b.Labels[0]] = true
-				}
+				seenL[strings.Join(b.Labels, "\x00")] = true
 			}
 			if mergeable {
-				var entries []string
-				for _, b := range same {
-					inner := jsonBody(b.Body, variant, false)
-					for i := len(b.Labels) - 1; i >= 1; i-- {
-						inner = fmt.Sprintf("{%q: %s}", b.Labels[i], inner)
+				var nest func(bs []Item, depth int) string
+				nest = func(bs []Item, depth int) string {
+					if depth == len(bs[0].Labels) {
+						return jsonBody(bs[0].Body, variant, false)
 					}
-					entries = append(entries, fmt.Sprintf("%q: %s", b.Labels[0], inner))
+					var order []string
+					groups := map[string][]Item{}
+					for _, b := range bs {
+						l := b.Labels[depth]
+						if _, ok := groups[l]; !ok {
+							order = append(order, l)
+						}
+						groups[l] = append(groups[l], b)
+					}
+					var entries []string
+					for _, l := range order {
+						entries = append(entries, fmt.Sprintf("%q: %s", l, nest(groups[l], depth+1)))
+					}
+					return "{" + strings.Join(entries, ", ") + "}"
 				}
-				props = append(props, fmt.Sprintf("%q: {%s}", it.Name, strings.Join(entries, ", ")))
-			} else {
+				// grouping by label changes the global order of blocks of this type unless equal
+				// labels are adjacent; only use the merged form when the order is preserved
+				ordered := true
+				var flat func(bs []Item, depth int, out *[]string)
+				flat = func(bs []Item, depth int, out *[]string) {
+					if depth == len(bs[0].Labels) {
+						*out = append(*out, strings.Join(bs[0].Labels, "/"))
+						return
+					}
+					var order []string
+					groups := map[string][]Item{}
+					for _, b := range bs {
+						l := b.Labels[depth]
+						if _, ok := groups[l]; !ok {
+							order = append(order, l)
+						}
+						groups[l] = append(groups[l], b)
+					}
+					for _, l := range order {
+						flat(groups[l], depth+1, out)
+					}
+				}
+				var got []string
+				flat(same, 0, &got)
+				for i, b := range same {
+					if got[i] != strings.Join(b.Labels, "/") {
+						ordered = false
+					}
+				}
+				if ordered {
+					props = append(props, fmt.Sprintf("%q: %s", it.Name, nest(same, 0)))
+					continue
+				}
+			}
+			{
 				var bodies []string
 				for _, b := range same {
 					bodies = append(bodies, blockBody(b))
